@@ -9,6 +9,28 @@ for p in props:
 engines = {'npcprog': ['C01','C02','C03','C04','C05','C06'], 'mpsdense': ['C07','C08','C09','C11'], 'modeldense': ['C10','C12','C19'],
            'algo': ['C13','C14','C16'], 'trunc': ['C15'], 'io': ['C17','C18'], 'sched': ['C20']}
 eng_of = {p: e for e, ps in engines.items() for p in ps}
+TECHNIQUE = {
+ 'C01': 'property-based testing (Hypothesis): generated np_conserved operation programs executed on block-sparse tensors and on a numpy shadow (reference-model oracle), compiled and pure-Python kernels',
+ 'C02': 'stateful property-based testing (Hypothesis): generated operation histories with an independent storage-invariant checker after every step',
+ 'C03': 'stateful property-based testing (Hypothesis): generated histories with aliased references; metamorphic oracle "every other live tensor / leg / MPS / MPO is bit-identical after the step"',
+ 'C04': 'differential property-based testing (Hypothesis): the same generated programs and helper inputs run under the compiled kernels and in a TENPY_NO_CYTHON child process',
+ 'C05': 'property-based testing (Hypothesis) with validity-predicate oracles (reconstruction, isometry, charge rule, spectra vs numpy/scipy) over generated block structures and options',
+ 'C06': 'exhaustive enumeration of small leg tuples plus property-based testing (Hypothesis) against an independently written fusion-order reference; round-trip combine/split',
+ 'C07': 'property-based testing (Hypothesis): round trip dense state -> MPS constructor -> dense state from the raw tensors',
+ 'C08': 'property-based testing (Hypothesis) against a dense quantum-mechanics reference model; exact-distribution oracle for sampling',
+ 'C09': 'model-based stateful property-based testing (Hypothesis): histories of MPS transformations mirrored on a dense state vector',
+ 'C10': 'differential / reference-model property-based testing (Hypothesis): every representation of a generated model converted to a dense matrix and compared with the sum of independently built terms',
+ 'C11': 'property-based testing (Hypothesis) against dense operator algebra; metamorphic checks (equal operators in different representations) and convergence-order measurement',
+ 'C12': 'exhaustive enumeration of all predefined site configurations and grouped sites, plus property-based testing (Hypothesis) of many-body Jordan-Wigner terms against reference operators',
+ 'C13': 'property-based testing (Hypothesis) with validity-predicate oracles (variational bound, Rayleigh quotient, canonical form, sector) and a dense eigensolver as reference on the validated convergence class',
+ 'C14': 'exhaustive enumeration of the Suzuki-Trotter schedules; property-based testing (Hypothesis) against scipy expm with observed-order measurement; recording wrapper around every truncation for the error accounting invariant',
+ 'C15': 'property-based testing (Hypothesis) against a brute-force selection-rule reference and algebraic laws of TruncationError; stateful history of truncations',
+ 'C16': 'property-based testing (Hypothesis) against dense eigh / eig / expm / solve on the charge sector; metamorphic relations (N_cache, E_shift)',
+ 'C17': 'round-trip property-based testing (Hypothesis) over generated container nestings and every exportable class found by reflection; invariant on the sharing structure',
+ 'C18': 'fault injection over generated crash histories (every file-system step and byte prefix of the real save procedure) with an invariant over the history; differential testing of resumed vs uninterrupted simulations',
+ 'C19': 'enumeration of lattice configurations against a brute-force geometric reference (differential oracle)',
+ 'C20': 'model-based stateful testing (Hypothesis) of caches against a dict model; schedule generation with a harness-owned scheduler replacing queue/threading; injected storage faults',
+}
 checks = []
 for pid, mod in claimed.items():
     m = getattr(mod, 'MANIFEST', {})
@@ -22,7 +44,7 @@ for pid, mod in claimed.items():
         'level_claimed': {'category': getattr(mod, 'LEVEL', 'exploration'),
                           'text': m.get('text', mod.RULE), 'design_ref': 'DESIGN.md §4 ' + pid},
         'level_note': m.get('note', '; '.join(getattr(mod, 'ASSUMPTIONS', [])) or 'dense numpy/scipy reference implementations in /verif/vf are trusted'),
-        'technique': m.get('technique', 'property-based testing (Hypothesis) against an independent dense / brute-force oracle'),
+        'technique': m.get('technique', TECHNIQUE[pid]),
     })
 na = [{'property_id': p['id'], 'reason': 'check not built yet (planned, see DESIGN.md §4); will be claimed once its check exists'} for p in props if p['id'] not in claimed]
 man = {
